@@ -40,6 +40,9 @@ CHECKS = {
  "C11": ("generated fonts with all GSUB/GPOS/GDEF lookup types and formats x permutations; name-keyed semantic normal form before/after reorder+save+reload; stored coverage order", "§4 C11",
          "Generated fonts (feaLib-compiled grammar + hand-assembled Context/ChainContext formats 1-3, extension lookups, GDEF, COLR v0/v1, TrueType and CFF) are reordered by generated permutations; a name-keyed normal form of every table must be unchanged after save+reload, every stored Coverage and PairSet must be in glyph-id order. Sampling; each _REORDER_RULES entry was deleted in turn and is detected.",
          "Trusted: fontTools compilers/decompilers; vlib/layoutsem.py normal form (raises on a subtable kind it cannot express)."),
+ "C13": ("generated COLR paint graphs (depth <= 6, all supported paint formats) in fontBuilder fonts; own SVG interpreter of colr_to_svg output vs own COLR interpreter", "§4 C13",
+         "Generated third-party-style COLRv0/v1 fonts with recursive paint graphs over every supported paint format, palettes, foreground colour and three viewBox choices; the SVG produced for each colour glyph is interpreted and compared, in the em box, with the paint graph's display tree; planted unsupported nodes must raise or warn. Sampling.",
+         "Trusted: fontTools colorLib builder / COLR decompiler; the two interpreters in vlib (both ours, so only the conversion is judged)."),
 }
 NOT_APPLICABLE = []
 def main():
